@@ -29,6 +29,7 @@ func init() {
 	core.Assumptions["C05"] = []string{"client page sizes >= 1 (non-positive sizes are C18's subject)", "a fault that lands beyond the point where the consumer stopped has not fired and is not counted"}
 	register(&core.Scenario{Name: "c05-seq", Property: "C05", Weight: 5, Run: func(env *core.Env) { c05(env, false) }})
 	register(&core.Scenario{Name: "c05-unify", Property: "C05", Weight: 2, Bubble: true, Run: func(env *core.Env) { c05(env, true) }})
+	register(&core.Scenario{Name: "c05-large", Property: "C05", Weight: 1, Run: c05large})
 }
 
 func hashAllow(salt uint64) func(string) bool {
@@ -484,5 +485,143 @@ func c05(env *core.Env, unify bool) {
 		if nreq > budget {
 			env.Failf(class("too-many-requests"), "%s needed %d requests for at most %d items with page size %d (budget %d)", op, nreq, len(backendItems), pageSize, budget)
 		}
+	}
+	// One sequence value iterated again is one more iteration: complete or an
+	// error, wherever an earlier iteration of the same value stopped.
+	if faultKind == "none" && what != "Referrers" && c.Bool("reiterate", 1, 3) {
+		var seq ociregistry.Seq[string]
+		if what == "Repositories" {
+			seq = r.Repositories(ctx, start)
+		} else {
+			seq = r.Tags(ctx, viewRepo, start)
+		}
+		k1 := c.Range("reiterate.stop", 0, len(expected)+1)
+		for round, stopAt := range []int{k1, -1, -1} {
+			var items []string
+			var lerr error
+			seq(func(x string, err error) bool {
+				if err != nil {
+					lerr = err
+					return false
+				}
+				items = append(items, x)
+				return stopAt < 0 || len(items) < stopAt
+			})
+			env.Logf("iteration %d of one %s sequence (stop %d) -> %v err=%v", round+1, what, stopAt, items, lerr)
+			if lerr != nil {
+				continue // an error is an allowed ending (e.g. hidden repository)
+			}
+			want := expected
+			if stopAt >= 0 && len(want) > stopAt {
+				want = want[:max(stopAt, 1)]
+			}
+			if !slices.Equal(items, want) && !(len(items) == 0 && len(want) == 0) {
+				env.Failf(class("reiteration-differs"), "%s: iteration %d of the same sequence value (earlier iteration stopped after %d) delivered %v without error, want %v", op, round+1, k1, items, want)
+			}
+		}
+	}
+}
+
+// c05large: listings whose size and page size are in the thousands, so that
+// thresholds inside the server or client (default page limits, buffer sizes) are
+// crossed. The backend is a synthetic lister; the hop is the real client and server.
+func c05large(env *core.Env) {
+	c := env.C
+	ctx := context.Background()
+	pageSize := []int{100, 1000, 1024, 4096, 9999, 10000, 10001, 16384, 20000, 65536}[c.Int("pagesize", 10)]
+	nItems := []int{pageSize - 1, pageSize, pageSize + 1, pageSize + 7, 2*pageSize + 1, 10000, 10001, 10007, 8192}[c.Int("nitems", 9)]
+	if nItems > 21000 {
+		nItems = 21000 - c.Int("nitems.trim", 3)
+	}
+	what := []string{"Repositories", "Tags"}[c.Int("what", 2)]
+	all := make([]string, nItems)
+	for i := range all {
+		all[i] = fmt.Sprintf("n%06d", i)
+	}
+	lister := func(start string) ociregistry.Seq[string] {
+		return func(yield func(string, error) bool) {
+			i := 0
+			if start != "" {
+				i = sort.SearchStrings(all, start)
+				if i < len(all) && all[i] == start {
+					i++
+				}
+			}
+			for ; i < len(all); i++ {
+				if !yield(all[i], nil) {
+					return
+				}
+			}
+		}
+	}
+	backend := &ociregistry.Funcs{
+		Repositories_: func(ctx context.Context, start string) ociregistry.Seq[string] { return lister(start) },
+		Tags_:         func(ctx context.Context, repo, start string) ociregistry.Seq[string] { return lister(start) },
+	}
+	so := &stackOpts{PageSize: pageSize}
+	so.Server.OmitLinkHeaderFromResponses = c.Bool("omitlink", 1, 2)
+	if c.Bool("maxpage", 1, 4) {
+		so.Server.MaxListPageSize = []int{pageSize, pageSize + 1, 100000}[c.Int("maxpage.n", 3)]
+	}
+	hops := c.Range("hops", 1, 2)
+	var r ociregistry.Interface = backend
+	var outer *simnet.Transport
+	for i := 0; i < hops; i++ {
+		r, outer = httpHop(env, r, so, fmt.Sprintf("hop%d", i))
+	}
+	outer.Record = true
+	start := ""
+	if c.Bool("start", 1, 3) {
+		start = all[c.Int("start.i", len(all))]
+	}
+	var expected []string
+	for _, x := range all {
+		if start == "" || x > start {
+			expected = append(expected, x)
+		}
+	}
+	stopAfter := -1
+	if c.Bool("stop", 1, 4) {
+		stopAfter = []int{1, pageSize - 1, pageSize, pageSize + 1, len(expected)}[c.Int("stop.k", 5)]
+	}
+	op := &reg.Op{StopAfter: stopAfter, ContentFault: -1, Start: start, Kind: reg.Repositories}
+	if what == "Tags" {
+		op.Kind, op.Repo = reg.Tags, "the/repo"
+	}
+	env.Sample("%s: %d items, page %d, maxpage %d, nolink %v, hops %d", op, nItems, pageSize, so.Server.MaxListPageSize, so.Server.OmitLinkHeaderFromResponses, hops)
+	res := reg.Exec(ctx, r, op, nil)
+	got := res.Items
+	outcome := "complete"
+	if res.ListErr != nil {
+		outcome = "error"
+	}
+	env.Op(fmt.Sprintf("large/%s/n%d/p%d/hops%d/stop%d/%s", what, nItems, pageSize, hops, stopAfter, outcome))
+	env.Logf("%s -> %d items err=%v (expected %d)", op, len(got), res.ListErr, len(expected))
+	class := func(k string) string { return "C05/" + what + "/large/" + k }
+	if res.ExtraCalls > 0 {
+		env.Failf(class("consumer-called-after-end"), "%s: the iterator called its consumer %d more time(s) after it declined", op, res.ExtraCalls)
+	}
+	if res.ListErr != nil {
+		env.Failf(class("unexpected-error"), "%s (%d items, page size %d) ended with an error although no fault was injected: %v", op, nItems, pageSize, res.ListErr)
+	}
+	want := expected
+	if stopAfter >= 0 && len(want) > stopAfter {
+		want = want[:stopAfter]
+	}
+	if !slices.Equal(got, want) {
+		i := 0
+		for i < len(got) && i < len(want) && got[i] == want[i] {
+			i++
+		}
+		env.Failf(class("incomplete"), "%s (%d items, page size %d, %d hop(s)) delivered %d items without error, want %d (first difference at index %d)", op, nItems, pageSize, hops, len(got), len(want), i)
+	}
+	nreq := 0
+	for _, e := range outer.Log {
+		if e.Method == "GET" {
+			nreq++
+		}
+	}
+	if budget := (nItems+pageSize-1)/pageSize + 2; nreq > budget {
+		env.Failf(class("too-many-requests"), "%s needed %d requests for %d items with page size %d (budget %d)", op, nreq, nItems, pageSize, budget)
 	}
 }
